@@ -172,3 +172,467 @@ Proof.
   rewrite c1, c2, c3, c4, c5, c6, c7, c8, c11, c12, c13, c14, c15, c16, LE, !swap_nth_length.
   repeat split; auto. apply psized_map_pswap. exact a5.
 Qed.
+
+(* ---------------------------------------------------------------- the four delete_*_core *)
+
+Lemma len_view_if (b : bool) (s t u : mesh) : len_view t = len_view u -> len_view s = len_view u -> len_view (if b then t else s) = len_view u.
+Proof. destruct b; auto. Qed.
+
+Lemma szd_delete_cell_core h0 s : szd s -> szd (delete_cell_core h0 s).
+Proof.
+  intros H. unfold delete_cell_core.
+  set (do_swap := fast s && negb (deferred s)).
+  set (h := if do_swap then nc s - 1 else h0).
+  set (s_ := if do_swap then swap_cell_indices h0 h s else s).
+  assert (Hs : szd s_) by (unfold s_; destruct do_swap; [apply szd_swap_cell|]; assumption).
+  clearbody s_ h. clear H do_swap s.
+  match goal with |- szd (if deferred ?x then _ else _) => set (s1 := x) end.
+  assert (L1 : len_view s1 = len_view s_).
+  { unfold s1. destruct (fbu s_); [|reflexivity].
+    match goal with |- len_view (if ?b then reorder_edges ?es ?t else ?t) = _ => destruct b; [rewrite len_view_reorder_edges|]; reflexivity end. }
+  assert (H1 : szd s1) by (apply (szd_len_view s_); assumption). clearbody s1. clear Hs L1 s_.
+  destruct (deferred s1).
+  - destruct H1 as (a1&a2&a3&a4&a5&a6&a7&a8&a9&a10&a11). unfold szd. rsz. rewrite upd_length. repeat split; assumption.
+  - match goal with |- szd (cell_deleted h (set_cdel _ (set_cells _ ?x))) => set (s2 := x) end.
+    assert (L2 : len_view s2 = len_view s1) by (unfold s2; destruct (negb (fast s1) && fbu s1); reflexivity).
+    assert (H2 : szd s2) by (apply (szd_len_view s1); assumption). clearbody s2. clear H1 L2 s1.
+    destruct H2 as (a1&a2&a3&a4&a5&a6&a7&a8&a9&a10&a11). unfold szd. rsz.
+    repeat split; auto; [rewrite !remove_nth_length', a4; reflexivity | apply psized_pdelete; exact a10].
+Qed.
+
+Lemma fold_len_view {X} (f : mesh -> X -> mesh) : (forall s x, len_view (f s x) = len_view s) ->
+  forall l s, len_view (fold_left f l s) = len_view s.
+Proof. intros H l. induction l as [|x l IH]; intros s; [reflexivity|]. simpl. rewrite IH. apply H. Qed.
+
+Lemma fold_upd_length {A X} (g : list A -> X -> nat * A) l : forall (cs : list A),
+  length (fold_left (fun cs x => upd (fst (g cs x)) (snd (g cs x)) cs) l cs) = length cs.
+Proof. induction l as [|x l IH]; intros cs; [reflexivity|]. simpl. rewrite IH. apply upd_length. Qed.
+
+Lemma szd_delete_face_core h0 s : szd s -> szd (delete_face_core h0 s).
+Proof.
+  intros H. unfold delete_face_core.
+  set (do_swap := fast s && negb (deferred s)).
+  set (h := if do_swap then nf s - 1 else h0).
+  set (s_ := if do_swap then swap_face_indices h0 h s else s).
+  assert (Hs : szd s_) by (unfold s_; destruct do_swap; [apply szd_swap_face|]; assumption).
+  clearbody s_ h. clear H do_swap s.
+  match goal with |- szd (if deferred ?x then _ else _) => set (s1 := x) end.
+  assert (L1 : len_view s1 = len_view s_).
+  { unfold s1. destruct (ebu s_); [|reflexivity]. apply fold_len_view. intros t he.
+    match goal with |- len_view (if ?b then reorder_incident_halffaces ?e ?u else ?u) = _ =>
+      destruct b; [rewrite len_view_reorder_one|]; reflexivity end. }
+  assert (H1 : szd s1) by (apply (szd_len_view s_); assumption). clearbody s1. clear Hs L1 s_.
+  destruct (deferred s1).
+  - destruct H1 as (a1&a2&a3&a4&a5&a6&a7&a8&a9&a10&a11). unfold szd. rsz. rewrite upd_length. repeat split; assumption.
+  - match goal with |- szd (face_deleted h (set_fdel _ (set_faces _ ?x))) => set (s4 := x) end.
+    assert (L4 : nv s4 = nv s1 /\ length (edges s4) = length (edges s1) /\ faces s4 = faces s1 /\ length (cells s4) = length (cells s1) /\
+                 vdel s4 = vdel s1 /\ edel s4 = edel s1 /\ fdel s4 = fdel s1 /\ cdel s4 = cdel s1 /\
+                 pv s4 = pv s1 /\ pe s4 = pe s1 /\ phe s4 = phe s1 /\ pf s4 = pf s1 /\ phf s4 = phf s1 /\ pc s4 = pc s1 /\ pm s4 = pm s1).
+    { unfold s4.
+      repeat match goal with |- context [if ?b then _ else _] => destruct b eqn:? end; rsz;
+        repeat split; try reflexivity;
+        match goal with |- length (fold_left ?FF ?LL ?CC) = _ =>
+          apply (fold_upd_length (fun cs c => (c, map (cor2 (2 * h + 1)) (remove_val (2 * h + 1) (remove_val (2 * h) (nth c cs [])))))) end. }
+    clearbody s4. destruct L4 as (b1&b2&b3&b4&b5&b6&b7&b8&b9&b10&b11&b12&b13&b14&b15).
+    destruct H1 as (a1&a2&a3&a4&a5&a6&a7&a8&a9&a10&a11). unfold szd. rsz.
+    rewrite b1, b2, b3, b4, b5, b6, b7, b8, b9, b10, b11, b12, b13, b14, b15.
+    repeat split; auto; [rewrite !remove_nth_length', a3; reflexivity | apply psized_pdelete; exact a8 | apply psized_pdelete_half; exact a9].
+Qed.
+
+Lemma szd_delete_edge_core h0 s : szd s -> szd (delete_edge_core h0 s).
+Proof.
+  intros H. unfold delete_edge_core.
+  set (do_swap := fast s && negb (deferred s)).
+  set (h := if do_swap then ne s - 1 else h0).
+  set (s_ := if do_swap then swap_edge_indices h0 h s else s).
+  assert (Hs : szd s_) by (unfold s_; destruct do_swap; [apply szd_swap_edge|]; assumption).
+  clearbody s_ h. clear H do_swap s.
+  match goal with |- szd (if deferred ?x then _ else _) => set (s1 := x) end.
+  assert (L1 : len_view s1 = len_view s_).
+  { unfold s1. destruct (vbu s_); [|reflexivity]. destruct (edge_at s_ h). reflexivity. }
+  assert (H1 : szd s1) by (apply (szd_len_view s_); assumption). clearbody s1. clear Hs L1 s_.
+  destruct (deferred s1).
+  - destruct H1 as (a1&a2&a3&a4&a5&a6&a7&a8&a9&a10&a11). unfold szd. rsz. rewrite upd_length. repeat split; assumption.
+  - match goal with |- szd (edge_deleted h (set_edel _ (set_edges _ ?x))) => set (s4 := x) end.
+    assert (L4 : nv s4 = nv s1 /\ edges s4 = edges s1 /\ length (faces s4) = length (faces s1) /\ cells s4 = cells s1 /\
+                 vdel s4 = vdel s1 /\ edel s4 = edel s1 /\ fdel s4 = fdel s1 /\ cdel s4 = cdel s1 /\
+                 pv s4 = pv s1 /\ pe s4 = pe s1 /\ phe s4 = phe s1 /\ pf s4 = pf s1 /\ phf s4 = phf s1 /\ pc s4 = pc s1 /\ pm s4 = pm s1).
+    { unfold s4.
+      repeat match goal with |- context [if ?b then _ else _] => destruct b eqn:? end; rsz;
+        repeat split; try reflexivity;
+        match goal with |- length (fold_left ?FF ?LL ?CC) = _ =>
+          apply (fold_upd_length (fun fs f => (f, map (cor2 (2 * h + 1)) (remove_val (2 * h + 1) (remove_val (2 * h) (nth f fs [])))))) end. }
+    clearbody s4. destruct L4 as (b1&b2&b3&b4&b5&b6&b7&b8&b9&b10&b11&b12&b13&b14&b15).
+    destruct H1 as (a1&a2&a3&a4&a5&a6&a7&a8&a9&a10&a11). unfold szd. rsz.
+    rewrite b1, b2, b3, b4, b5, b6, b7, b8, b9, b10, b11, b12, b13, b14, b15.
+    repeat split; auto; [rewrite !remove_nth_length', a2; reflexivity | apply psized_pdelete; exact a6 | apply psized_pdelete_half; exact a7].
+Qed.
+
+Lemma szd_delete_vertex_core h0 s : szd s -> h0 < nv s -> szd (delete_vertex_core h0 s).
+Proof.
+  intros H Hh. unfold delete_vertex_core.
+  set (do_swap := fast s && negb (deferred s)).
+  set (h := if do_swap then nv s - 1 else h0).
+  set (s_ := if do_swap then swap_vertex_indices h0 h s else s).
+  assert (Hs : szd s_) by (unfold s_; destruct do_swap; [apply szd_swap_vertex|]; assumption).
+  assert (Hn : h < nv s_).
+  { unfold s_, h. destruct do_swap; [|assumption].
+    destruct (Nat.eq_dec h0 (nv s - 1)) as [->|N]; [rewrite swap_vertex_self; lia|].
+    pose proof (swap_vertex_effect h0 (nv s - 1) s N) as E. cbv zeta in E. destruct E as (c1&_). rewrite c1. lia. }
+  clearbody s_ h. clear H Hh do_swap s.
+  destruct (deferred s_).
+  - destruct Hs as (a1&a2&a3&a4&a5&a6&a7&a8&a9&a10&a11). unfold szd. rsz. rewrite upd_length. repeat split; assumption.
+  - match goal with |- szd (vertex_deleted h (set_vdel _ (set_nv _ ?x))) => set (s2 := x) end.
+    assert (L2 : nv s2 = nv s_ /\ length (edges s2) = length (edges s_) /\ faces s2 = faces s_ /\ cells s2 = cells s_ /\
+                 vdel s2 = vdel s_ /\ edel s2 = edel s_ /\ fdel s2 = fdel s_ /\ cdel s2 = cdel s_ /\
+                 pv s2 = pv s_ /\ pe s2 = pe s_ /\ phe s2 = phe s_ /\ pf s2 = pf s_ /\ phf s2 = phf s_ /\ pc s2 = pc s_ /\ pm s2 = pm s_).
+    { unfold s2.
+      repeat match goal with |- context [if ?b then _ else _] => destruct b eqn:? end; rsz; repeat split; try reflexivity.
+      (* endpoint correction: nested folds of upd (cache-guided) or one fold (linear scan) *)
+      all: match goal with |- length (fold_left ?f ?l ?es) = _ =>
+          assert (G : forall l0 es0, length (fold_left f l0 es0) = length es0); [|apply G] end.
+      all: induction l0 as [|i l0 IH]; intros es0; [reflexivity|]; cbn [fold_left]; rewrite IH.
+      all: try (match goal with |- context [let '(_, _) := ?p in _] => destruct p end; apply upd_length).
+      all: match goal with |- length (fold_left ?g ?l1 ?e0) = _ =>
+            assert (G2 : forall l2 es2, length (fold_left g l2 es2) = length es2); [|apply G2] end.
+      all: induction l2 as [|x l2 IH2]; intros es2; [reflexivity|]; cbn [fold_left]; rewrite IH2.
+      all: match goal with |- context [let '(_, _) := ?p in _] => destruct p end; apply upd_length. }
+    clearbody s2. destruct L2 as (b1&b2&b3&b4&b5&b6&b7&b8&b9&b10&b11&b12&b13&b14&b15).
+    destruct Hs as (a1&a2&a3&a4&a5&a6&a7&a8&a9&a10&a11). unfold szd. rsz.
+    rewrite b1, b2, b3, b4, b5, b6, b7, b8, b9, b10, b11, b12, b13, b14, b15.
+    repeat split; auto; [rewrite remove_nth_length', a1; replace (h <? nv s_) with true by (symmetry; apply Nat.ltb_lt; exact Hn); reflexivity
+                        | apply psized_pdelete_nat; assumption].
+Qed.
+
+(* ---------------------------------------------------------------- the vertex count is not touched by the other cores *)
+Lemma nv_of_len_view s t : len_view t = len_view s -> nv t = nv s.
+Proof. unfold len_view. intros E. inversion E. reflexivity. Qed.
+
+Lemma nv_swap_cell a b s : nv (swap_cell_indices a b s) = nv s.
+Proof. destruct (Nat.eq_dec a b) as [->|N]; [rewrite swap_cell_self; reflexivity|]. pose proof (swap_cell_effect a b s N) as E. cbv zeta in E. tauto. Qed.
+Lemma nv_swap_face a b s : nv (swap_face_indices a b s) = nv s.
+Proof. destruct (Nat.eq_dec a b) as [->|N]; [rewrite swap_face_self; reflexivity|]. pose proof (swap_face_effect a b s N) as E. cbv zeta in E. tauto. Qed.
+Lemma nv_swap_edge a b s : nv (swap_edge_indices a b s) = nv s.
+Proof. destruct (Nat.eq_dec a b) as [->|N]; [rewrite swap_edge_self; reflexivity|]. pose proof (swap_edge_effect a b s N) as E. cbv zeta in E. tauto. Qed.
+
+Lemma nv_delete_cell_core h0 s : nv (delete_cell_core h0 s) = nv s.
+Proof.
+  unfold delete_cell_core.
+  set (do_swap := fast s && negb (deferred s)).
+  set (h := if do_swap then nc s - 1 else h0).
+  set (s_ := if do_swap then swap_cell_indices h0 h s else s).
+  assert (Hs : nv s_ = nv s) by (unfold s_; destruct do_swap; [apply nv_swap_cell|reflexivity]).
+  clearbody s_ h. rewrite <- Hs. clear Hs do_swap s.
+  match goal with |- nv (if deferred ?x then _ else _) = _ => set (s1 := x) end.
+  assert (L1 : nv s1 = nv s_).
+  { apply nv_of_len_view. unfold s1. destruct (fbu s_); [|reflexivity].
+    match goal with |- len_view (if ?b then reorder_edges ?es ?t else ?t) = _ => destruct b; [rewrite len_view_reorder_edges|]; reflexivity end. }
+  clearbody s1. rewrite <- L1.
+  destruct (deferred s1); [reflexivity|]. destruct (negb (fast s1) && fbu s1); reflexivity.
+Qed.
+
+Lemma nv_delete_face_core h0 s : nv (delete_face_core h0 s) = nv s.
+Proof.
+  unfold delete_face_core.
+  set (do_swap := fast s && negb (deferred s)).
+  set (h := if do_swap then nf s - 1 else h0).
+  set (s_ := if do_swap then swap_face_indices h0 h s else s).
+  assert (Hs : nv s_ = nv s) by (unfold s_; destruct do_swap; [apply nv_swap_face|reflexivity]).
+  clearbody s_ h. rewrite <- Hs. clear Hs do_swap s.
+  match goal with |- nv (if deferred ?x then _ else _) = _ => set (s1 := x) end.
+  assert (L1 : nv s1 = nv s_).
+  { apply nv_of_len_view. unfold s1. destruct (ebu s_); [|reflexivity]. apply fold_len_view. intros t he.
+    match goal with |- len_view (if ?b then reorder_incident_halffaces ?e ?u else ?u) = _ =>
+      destruct b; [rewrite len_view_reorder_one|]; reflexivity end. }
+  clearbody s1. rewrite <- L1.
+  destruct (deferred s1); [reflexivity|].
+  repeat match goal with |- context [if ?b then _ else _] => destruct b eqn:? end; reflexivity.
+Qed.
+
+Lemma nv_delete_edge_core h0 s : nv (delete_edge_core h0 s) = nv s.
+Proof.
+  unfold delete_edge_core.
+  set (do_swap := fast s && negb (deferred s)).
+  set (h := if do_swap then ne s - 1 else h0).
+  set (s_ := if do_swap then swap_edge_indices h0 h s else s).
+  assert (Hs : nv s_ = nv s) by (unfold s_; destruct do_swap; [apply nv_swap_edge|reflexivity]).
+  clearbody s_ h. rewrite <- Hs. clear Hs do_swap s.
+  match goal with |- nv (if deferred ?x then _ else _) = _ => set (s1 := x) end.
+  assert (L1 : nv s1 = nv s_).
+  { unfold s1. destruct (vbu s_); [|reflexivity]. destruct (edge_at s_ h). reflexivity. }
+  clearbody s1. rewrite <- L1.
+  destruct (deferred s1); [reflexivity|].
+  repeat match goal with |- context [if ?b then _ else _] => destruct b eqn:? end; reflexivity.
+Qed.
+
+(* ---------------------------------------------------------------- compound deletions *)
+Lemma szd_del_desc core l : (forall x s, szd s -> szd (core x s)) -> forall s, szd s -> szd (del_desc core l s).
+Proof.
+  intros H. unfold del_desc. induction (rev l) as [|x r IH]; intros s Hs; [exact Hs|]. simpl. apply IH. apply H. exact Hs.
+Qed.
+Lemma nv_del_desc core l : (forall x s, nv (core x s) = nv s) -> forall s, nv (del_desc core l s) = nv s.
+Proof.
+  intros H. unfold del_desc. induction (rev l) as [|x r IH]; intros s; [reflexivity|]. simpl. rewrite IH. apply H.
+Qed.
+
+Lemma szd_delete_cell c s : szd s -> szd (delete_cell c s).
+Proof. apply szd_delete_cell_core. Qed.
+Lemma szd_delete_face f s : szd s -> szd (delete_face f s).
+Proof. intros H. unfold delete_face. apply szd_delete_face_core. apply szd_del_desc; [apply szd_delete_cell_core|exact H]. Qed.
+Lemma szd_delete_edge e s : szd s -> szd (delete_edge e s).
+Proof.
+  intros H. unfold delete_edge. apply szd_delete_edge_core.
+  apply szd_del_desc; [apply szd_delete_face_core|]. apply szd_del_desc; [apply szd_delete_cell_core|exact H].
+Qed.
+Lemma szd_delete_vertex v s : szd s -> v < nv s -> szd (delete_vertex v s).
+Proof.
+  intros H Hv. unfold delete_vertex. apply szd_delete_vertex_core.
+  - apply szd_del_desc; [apply szd_delete_edge_core|]. apply szd_del_desc; [apply szd_delete_face_core|].
+    apply szd_del_desc; [apply szd_delete_cell_core|exact H].
+  - rewrite (nv_del_desc _ _ nv_delete_edge_core), (nv_del_desc _ _ nv_delete_face_core), (nv_del_desc _ _ nv_delete_cell_core). exact Hv.
+Qed.
+
+(* ---------------------------------------------------------------- garbage collection *)
+Lemma szd_gc_pass n is_del clr core s :
+  (forall i t, szd t -> szd (clr i t)) ->
+  (forall i t, szd t -> is_del t i = true -> szd (core i (clr i t))) ->
+  szd s -> szd (gc_pass n is_del clr core s).
+Proof.
+  intros Hc Hcore. unfold gc_pass. induction (rev (seq 0 n)) as [|i r IH] in s |- *; intros Hs; [exact Hs|].
+  simpl. apply IH. destruct (is_del s i) eqn:D; [apply Hcore; assumption|exact Hs].
+Qed.
+
+Lemma szd_set_counts a b c d s : szd s -> szd (set_counts a b c d s).
+Proof. apply szd_len_view. reflexivity. Qed.
+Lemma szd_set_flags a b c d e s : szd s -> szd (set_flags a b c d e s).
+Proof. apply szd_len_view. reflexivity. Qed.
+
+Lemma szd_upd_flag_c i b s : szd s -> szd (set_cdel (upd i b (cdel s)) s).
+Proof. intros (a1&a2&a3&a4&a5). unfold szd. rsz. rewrite upd_length. tauto. Qed.
+Lemma szd_upd_flag_f i b s : szd s -> szd (set_fdel (upd i b (fdel s)) s).
+Proof. intros (a1&a2&a3&a4&a5). unfold szd. rsz. rewrite upd_length. tauto. Qed.
+Lemma szd_upd_flag_e i b s : szd s -> szd (set_edel (upd i b (edel s)) s).
+Proof. intros (a1&a2&a3&a4&a5). unfold szd. rsz. rewrite upd_length. tauto. Qed.
+Lemma szd_upd_flag_v i b s : szd s -> szd (set_vdel (upd i b (vdel s)) s).
+Proof. intros (a1&a2&a3&a4&a5). unfold szd. rsz. rewrite upd_length. tauto. Qed.
+
+Lemma szd_collect_garbage s : szd s -> szd (collect_garbage s).
+Proof.
+  intros H. unfold collect_garbage. destruct (negb (deferred s) || negb (needs_gc s)); [exact H|].
+  apply szd_set_flags. apply szd_set_counts.
+  apply szd_gc_pass.
+  - intros i t. apply szd_upd_flag_v.
+  - intros i t Ht D. apply szd_delete_vertex_core; [apply szd_upd_flag_v; exact Ht|].
+    rsz. unfold v_deleted in D. destruct Ht as (a1&_). rewrite <- a1.
+    destruct (Nat.lt_ge_cases i (length (vdel t))); [assumption|]. rewrite nth_overflow in D by assumption. discriminate.
+  - apply szd_set_counts. apply szd_gc_pass.
+    + intros i t. apply szd_upd_flag_e.
+    + intros i t Ht _. apply szd_delete_edge_core. apply szd_upd_flag_e. exact Ht.
+    + apply szd_set_counts. apply szd_gc_pass.
+      * intros i t. apply szd_upd_flag_f.
+      * intros i t Ht _. apply szd_delete_face_core. apply szd_upd_flag_f. exact Ht.
+      * apply szd_set_counts. apply szd_gc_pass.
+        -- intros i t. apply szd_upd_flag_c.
+        -- intros i t Ht _. apply szd_delete_cell_core. apply szd_upd_flag_c. exact Ht.
+        -- apply szd_set_flags. exact H.
+Qed.
+
+(* ---------------------------------------------------------------- additions *)
+Lemma szd_add_vertex s : szd s -> szd (fst (add_vertex s)).
+Proof.
+  intros (a1&a2&a3&a4&a5&a6&a7&a8&a9&a10&a11). unfold add_vertex. cbn [fst].
+  destruct (vbu s) eqn:V; unfold szd; rsz; rewrite ?V; rsz; rewrite app_length, a1; cbn [length];
+    repeat split; auto; try lia; apply psized_presize.
+Qed.
+
+Lemma szd_add_n_vertices n : forall s, szd s -> szd (add_n_vertices n s).
+Proof. induction n as [|n IH]; intros s H; [exact H|]. simpl. apply IH. apply szd_add_vertex. exact H. Qed.
+
+Lemma szd_append_edge s a b : szd s -> szd (fst (append_edge s a b)).
+Proof.
+  intros (a1&a2&a3&a4&a5&a6&a7&a8&a9&a10&a11).
+  pose proof (append_edge_effect s a b) as E. destruct (append_edge s a b) as [s' e]. cbn [fst].
+  destruct E as (_&e1&e2&(t1&t2&t3&t4&t5&t6&_)&_&p1&p2&p3&p4&p5&p6&p7).
+  unfold szd. rewrite e1, e2, t1, t2, t3, t4, t5, t6, p1, p2, p3, p4, p5, p6, p7, !app_length. cbn [length]. unfold ne.
+  repeat split; auto; try lia.
+  - replace (length (edges s) + 1) with (S (length (edges s))) by lia. apply psized_presize.
+  - replace (2 * (length (edges s) + 1)) with (2 * S (length (edges s))) by lia. apply psized_presize.
+Qed.
+
+Lemma szd_add_edge s a b d : szd s -> szd (fst (add_edge s a b d)).
+Proof.
+  intros H. unfold add_edge. destruct d; [apply szd_append_edge; exact H|].
+  destruct (find_dup_edge s a b); [exact H|apply szd_append_edge; exact H].
+Qed.
+
+Lemma szd_append_face s hes : szd s -> szd (fst (append_face s hes)).
+Proof.
+  intros (a1&a2&a3&a4&a5&a6&a7&a8&a9&a10&a11).
+  pose proof (append_face_effect s hes) as E. destruct (append_face s hes) as [s' f]. cbn [fst].
+  destruct E as (_&e1&e2&t1&t2&t3&t4&t5&t6&_&p1&p2&p3&p4&p5&p6&p7).
+  unfold szd. rewrite e1, e2, t1, t2, t3, t4, t5, t6, p1, p2, p3, p4, p5, p6, p7, !app_length. cbn [length]. unfold nf.
+  repeat split; auto; try lia.
+  - replace (length (faces s) + 1) with (S (length (faces s))) by lia. apply psized_presize.
+  - replace (2 * (length (faces s) + 1)) with (2 * S (length (faces s))) by lia. apply psized_presize.
+Qed.
+
+Lemma szd_add_face s hes c : szd s -> szd (fst (add_face s hes c)).
+Proof.
+  intros H. unfold add_face. destruct (c && negb (loop_ok s hes)); [exact H|].
+  pose proof (szd_append_face s hes H). destruct (append_face s hes). exact H0.
+Qed.
+
+Lemma szd_append_cell s hfs : szd s -> szd (fst (append_cell s hfs)).
+Proof.
+  intros (a1&a2&a3&a4&a5&a6&a7&a8&a9&a10&a11).
+  pose proof (append_cell_effect s hfs) as E. destruct (append_cell s hfs) as [s' c]. cbn [fst].
+  destruct E as (_&e1&e2&t1&t2&t3&t4&t5&t6&_&p1&p2&p3&p4&p5&p6&p7).
+  unfold szd. rewrite e1, e2, t1, t2, t3, t4, t5, t6, p1, p2, p3, p4, p5, p6, p7, !app_length. cbn [length]. unfold nc.
+  repeat split; auto; try lia.
+  replace (length (cells s) + 1) with (S (length (cells s))) by lia. apply psized_presize.
+Qed.
+
+Lemma szd_add_cell s hfs c : szd s -> szd (fst (add_cell s hfs c)).
+Proof.
+  intros H. unfold add_cell. destruct (c && negb (cell_check s hfs)); [exact H|].
+  pose proof (szd_append_cell s hfs H). destruct (append_cell s hfs). exact H0.
+Qed.
+
+Lemma szd_add_face_v_step v w acc : szd (fst acc) -> szd (fst (add_face_v_step v w acc)).
+Proof.
+  destruct acc as [s hes]. cbn [fst]. intros H. unfold add_face_v_step.
+  pose proof (szd_add_edge s v w false H). destruct (add_edge s v w false). exact H0.
+Qed.
+
+Lemma szd_add_face_v_edges first vs : forall acc, szd (fst acc) -> szd (fst (add_face_v_edges first vs acc)).
+Proof.
+  induction vs as [|v t IH]; intros acc H; [exact H|]. simpl.
+  destruct t as [|w t']; [apply szd_add_face_v_step; exact H|]. apply IH. apply szd_add_face_v_step. exact H.
+Qed.
+
+Lemma szd_add_face_v s vs : szd s -> szd (fst (add_face_v s vs)).
+Proof.
+  intros H. unfold add_face_v. destruct vs as [|f t]; [exact H|].
+  pose proof (szd_add_face_v_edges f (f :: t) (s, []) H) as H1.
+  destruct (add_face_v_edges f (f :: t) (s, [])) as [s1 hes]. apply szd_add_face. exact H1.
+Qed.
+
+(* ---------------------------------------------------------------- set_*, toggles, clear, property operations *)
+Lemma szd_set_edge s e a b : szd s -> szd (set_edge s e a b).
+Proof.
+  intros (a1&a2&a3&a4&a5). unfold set_edge. destruct (edge_at s e). destruct (vbu s); unfold szd; rsz; rewrite upd_length; tauto.
+Qed.
+Lemma szd_set_face s f hes : szd s -> szd (set_face s f hes).
+Proof. intros (a1&a2&a3&a4&a5). unfold set_face. destruct (ebu s); unfold szd; rsz; rewrite upd_length; tauto. Qed.
+Lemma szd_set_cell s c hfs : szd s -> szd (set_cell s c hfs).
+Proof. intros (a1&a2&a3&a4&a5). unfold set_cell. destruct (fbu s); unfold szd; rsz; rewrite upd_length; tauto. Qed.
+
+Lemma szd_enable_vbu b s : szd s -> szd (enable_vbu b s).
+Proof. apply szd_len_view. unfold enable_vbu. destruct (b && negb (vbu s)); destruct (negb b); reflexivity. Qed.
+Lemma lv_set_flags a b c d e s : len_view (set_flags a b c d e s) = len_view s.
+Proof. reflexivity. Qed.
+Lemma lv_set_inc_hfs x s : len_view (set_inc_hfs x s) = len_view s.
+Proof. reflexivity. Qed.
+Lemma lv_set_inc_cell x s : len_view (set_inc_cell x s) = len_view s.
+Proof. reflexivity. Qed.
+Lemma lv_set_out_hes x s : len_view (set_out_hes x s) = len_view s.
+Proof. reflexivity. Qed.
+
+Lemma szd_enable_ebu b s : szd s -> szd (enable_ebu b s).
+Proof.
+  apply szd_len_view. unfold enable_ebu. rewrite lv_set_flags.
+  destruct (negb b); rewrite ?lv_set_inc_hfs; destruct (b && negb (ebu s)); try reflexivity;
+    match goal with |- context [if fbu ?x then _ else _] => destruct (fbu x) end;
+    rewrite ?len_view_reorder_edges, ?lv_set_inc_hfs; reflexivity.
+Qed.
+Lemma szd_enable_fbu b s : szd s -> szd (enable_fbu b s).
+Proof.
+  apply szd_len_view. unfold enable_fbu.
+  match goal with |- len_view (if ?c then reorder_edges ?es ?t else ?t) = _ => destruct c; [rewrite len_view_reorder_edges|] end;
+    rewrite lv_set_flags; destruct (negb b); rewrite ?lv_set_inc_cell; destruct (b && negb (fbu s)); rewrite ?lv_set_inc_cell; reflexivity.
+Qed.
+Lemma szd_enable_deferred b s : szd s -> szd (enable_deferred b s).
+Proof. intros H. unfold enable_deferred. apply szd_set_flags. destruct (deferred s && negb b); [apply szd_collect_garbage|]; exact H. Qed.
+
+Lemma szd_clear c s : szd s -> szd (clear_mesh c s).
+Proof.
+  intros (a1&a2&a3&a4&a5&a6&a7&a8&a9&a10&a11). unfold clear_mesh, szd. rsz. cbn [length].
+  repeat split; try reflexivity; try exact a11; apply psized_presize.
+Qed.
+
+(* ---------------------------------------------------------------- every operation, every history *)
+Lemma szd_count k s : szd s -> psized (count k s) (props k s).
+Proof. intros (a1&a2&a3&a4&a5&a6&a7&a8&a9&a10&a11). destruct k; cbn [count props]; unfold ne, nf, nc; assumption. Qed.
+
+Lemma szd_set_props k x s : szd s -> psized (count k s) x -> szd (set_props k x s).
+Proof.
+  intros (a1&a2&a3&a4&a5&a6&a7&a8&a9&a10&a11) Hx. unfold szd. destruct k; cbn [count] in Hx; unfold ne, nf, nc in Hx; rsz;
+    repeat split; auto.
+Qed.
+
+Lemma In_upd {A} i (x : A) l y : In y (upd i x l) -> y = x \/ In y l.
+Proof.
+  revert i; induction l as [|h t IH]; intros [|i] H; simpl in *; auto.
+  - destruct H as [<-|H]; auto.
+  - destruct H as [<-|H]; auto. destruct (IH i H); auto.
+Qed.
+
+Lemma In_remove_nth {A} i (l : list A) y : In y (remove_nth i l) -> In y l.
+Proof.
+  revert i; induction l as [|h t IH]; intros [|i] H; simpl in *; auto. destruct H as [<-|H]; auto. right. eapply IH. exact H.
+Qed.
+
+Theorem szd_exec s o : szd s -> valid_op s o = true -> szd (fst (exec s o)).
+Proof.
+  intros H V. destruct o; cbn [exec].
+  - pose proof (szd_add_vertex s H). destruct (add_vertex s). exact H0.
+  - cbn [fst]. apply szd_add_n_vertices. exact H.
+  - pose proof (szd_add_edge s a b dup H). destruct (add_edge s a b dup). exact H0.
+  - apply szd_add_face. exact H.
+  - apply szd_add_face_v. exact H.
+  - apply szd_add_cell. exact H.
+  - cbn [fst]. apply szd_set_edge. exact H.
+  - cbn [fst]. apply szd_set_face. exact H.
+  - cbn [fst]. apply szd_set_cell. exact H.
+  - cbn [fst]. apply szd_delete_vertex; [exact H|]. cbn [valid_op] in V. unfold live_v in V.
+    apply andb_true_iff in V. destruct V as [V _]. apply Nat.ltb_lt in V. exact V.
+  - cbn [fst]. apply szd_delete_edge. exact H.
+  - cbn [fst]. apply szd_delete_face. exact H.
+  - cbn [fst]. apply szd_delete_cell. exact H.
+  - cbn [fst]. apply szd_swap_vertex. exact H.
+  - cbn [fst]. apply szd_swap_edge. exact H.
+  - cbn [fst]. apply szd_swap_face. exact H.
+  - cbn [fst]. apply szd_swap_cell. exact H.
+  - cbn [fst]. apply szd_collect_garbage. exact H.
+  - cbn [fst]. apply szd_clear. exact H.
+  - cbn [fst]. apply szd_enable_vbu. exact H.
+  - cbn [fst]. apply szd_enable_ebu. exact H.
+  - cbn [fst]. apply szd_enable_fbu. exact H.
+  - cbn [fst]. apply szd_enable_deferred. exact H.
+  - cbn [fst]. unfold enable_fast. apply szd_set_flags. exact H.
+  - cbn [fst]. apply szd_set_props; [exact H|]. intros p Hp. apply in_app_iff in Hp. destruct Hp as [Hp|[<-|[]]].
+    + apply (szd_count k s H). exact Hp.
+    + cbn [pdata]. apply repeat_length.
+  - cbn [fst]. apply szd_set_props; [exact H|]. intros q Hq. apply In_upd in Hq. destruct Hq as [->|Hq].
+    + unfold pset. cbn [pdata]. rewrite upd_length.
+      cbn [valid_op] in V. destruct (nth_error (props k s) p) as [pa|] eqn:E; [|discriminate].
+      apply nth_error_In in E as Hin. rewrite (nth_error_nth _ _ _ E). apply (szd_count k s H). exact Hin.
+    + apply (szd_count k s H). exact Hq.
+  - cbn [fst]. apply szd_set_props; [exact H|]. intros q Hq. apply In_remove_nth in Hq. apply (szd_count k s H). exact Hq.
+Qed.
+
+Theorem szd_run_from ops : forall s, szd s -> szd (run_from s ops).
+Proof.
+  induction ops as [|o ops IH]; intros s H; [exact H|]. unfold run_from. cbn [fold_left]. apply IH.
+  unfold step. destruct (valid_op s o) eqn:V; [|exact H].
+  pose proof (szd_exec s o H V) as E. destruct (exec s o). exact E.
+Qed.
+
+Lemma szd_empty : szd empty_mesh.
+Proof. unfold szd, empty_mesh, psized. cbn. repeat split; auto; intros p []. Qed.
+
+Theorem szd_reachable ops : szd (run ops).
+Proof. apply szd_run_from. apply szd_empty. Qed.
+
+Theorem sized_reachable ops : sized (run ops).
+Proof. apply szd_sized. apply szd_reachable. Qed.
